@@ -5,6 +5,7 @@ import Genshi.Model.PyParseS
 import Genshi.Model.PyStmtX
 import Genshi.Model.PyScope
 import Genshi.Model.PyLeaves
+import Genshi.Model.PyLayout
 import Driver.PyWire
 namespace Driver.C13
 open Genshi Genshi.Py Genshi.Sexp Driver.PyWire
@@ -97,6 +98,26 @@ def handle : List Sexp → Option Sexp
       | none => some (.atom "unmodelled")
       | some body =>
         if leafOKB body then some (.list [.atom "ok", .list ((leavesB body).map encTok)]) else some (.atom "outside")
+  -- character level: `ASTCodeGenerator(tree).code` as a string (`Model/PyLayout.lean`: the writer), and
+  -- what the line-structure reader `retok` makes of it (depth + text of every logical line)
+  | [.atom "code", t] =>
+      match decE t with
+      | none => some (.atom "unmodelled")
+      | some e =>
+        match codeE e with
+        | none => some (.atom "raises")
+        | some cs => some (.list [.atom "ok", .str cs])
+  | [.atom "codeS", .list ss] =>
+      match ss.mapM decS with
+      | none => some (.atom "unmodelled")
+      | some body =>
+        match codeS body with
+        | none => some (.atom "raises")
+        | some cs =>
+          some (.list [.atom "ok", .str cs,
+            match retok cs with
+            | none => .atom "N"
+            | some ls => .list (ls.map fun p => .list [.atom (toString p.1), .str p.2])])
   | _ => none
 
 end Driver.C13
